@@ -461,6 +461,30 @@ def r5_conversion(ctx):
 
 
     _scaled_converters(ctx)
+    _paired_value_error(ctx)
+
+
+def _paired_value_error(ctx):
+    """Wherever a magnitude is rebuilt as Magnitude(f(X.value), Y.error) - the linearised operands of a level sum, a
+    converted operand - value and uncertainty come from the same object X = Y."""
+    n = 0
+    for q in ("LogarithmicUnitType.add", "LogarithmicUnitType.sub"):
+        fn = ctx.fn(UT, q)
+        for c in [x for x in ast.walk(fn) if isinstance(x, ast.Call) and dotted_name(x.func) == "Magnitude" and len(x.args) == 2]:
+            vals = {norm(a.value) for a in ast.walk(c.args[0]) if isinstance(a, ast.Attribute) and a.attr == "value" and isinstance(a.value, (ast.Name, ast.Attribute))
+                    and not norm(a.value).endswith("baseunits")}
+            vals = {v[:-len(".magnitude")] if v.endswith(".magnitude") else v for v in vals}
+            errs = {norm(a.value) for a in ast.walk(c.args[1]) if isinstance(a, ast.Attribute) and a.attr == "error"}
+            errs = {v[:-len(".magnitude")] if v.endswith(".magnitude") else v for v in errs}
+            if len(vals) != 1 or len(errs) != 1:
+                continue
+            n += 1
+            what = "a rebuilt magnitude takes value and uncertainty from the same operand"
+            if vals == errs:
+                ctx.holds(UT, q, what)
+            else:
+                ctx.violated(UT, q, what, detail=norm(c)[:110], expected=f"Magnitude(f({sorted(vals)[0]}.value), {sorted(vals)[0]}.error)")
+    ctx.floor("rebuilt magnitudes in the level sum/difference", n, 4)
 
 
 def _scaled_converters(ctx):
